@@ -47,8 +47,46 @@ def element_programs():
                            "tags": ["mut:element-use", "form:" + form, "tuple:" + tt, "index:%d" % i, "as:" + tj]}
 
 
+def argument_programs():
+    """every value of a small type universe (scalars, tuples, collections, an instance) handed to a parameter of every OTHER type through every
+    kind of call: plain function, method, constructor, class argument, user operator, built-in operator.  The parameter is used with an
+    operation only its declared type supports, so an accepted mismatch raises TypeError / AttributeError at run time."""
+    U = [("Int", "1", "%s - 1"), ("Str", '"a"', '%s + "x"'), ("Float", "2.5", "%s - 0.5"), ("Bool", "True", "not %s"),
+         ("(Int, Int)", "(1, 2)", "%s[0] - 1"), ("(Str, Str)", '("a", "b")', '%s[0] + "x"'), ("(Int, Str)", '(1, "a")', "%s[0] - 1"),
+         ("List[Int]", "[1, 2]", "%s[0] - 1"), ("Set[Int]", "{1, 2}", "%s.union({3})"), ("Kc", "Kc()", "%s.kf - 1")]
+    pre = ["class Kc", "    def kf: Int := 3"]
+    n = 0
+    for pt, pv, puse in U:
+        use = puse % "p"
+        for at, av, _ in U:
+            if at == pt:
+                continue
+            for hold in ("literal", "variable"):
+                arg = av if hold == "literal" else "w"
+                bind = [] if hold == "literal" else ["def w: %s := %s" % (at, av)]
+                forms = [
+                    ("function", ["def g(p: %s) =>" % pt, "    print(%s)" % use] + bind + ["g(%s)" % arg]),
+                    ("function-second", ["def g(a: Int, p: %s) =>" % pt, "    print(%s)" % use] + bind + ["g(0, %s)" % arg]),
+                    ("method", ["class Hm", "    def m(self, p: %s) =>" % pt, "        print(%s)" % use, "def h := Hm()"] + bind + ["h.m(%s)" % arg]),
+                    ("method-returning", ["class Hm", "    def m(self, p: %s) -> Int =>" % pt, "        print(%s)" % use, "        1", "def h := Hm()"] + bind + ["def r: Int := h.m(%s)" % arg, "print(r)"]),
+                    ("method-second", ["class Hm", "    def m(self, a: Int, p: %s) =>" % pt, "        print(%s)" % use, "def h := Hm()"] + bind + ["h.m(0, %s)" % arg]),
+                    ("constructor", ["class Hm", "    def v: Int := 0", "    def __init__(self, p: %s) =>" % pt, "        print(%s)" % use] + bind + ["def h := Hm(%s)" % arg, "print(h.v)"]),
+                    ("user-operator", ["class Hm", "    def __add__(self, p: %s) -> Int =>" % pt, "        print(%s)" % use, "        1", "def h := Hm()"] + bind + ["def r := h + %s" % arg, "print(r)"]),
+                    ("self-call", ["class Hm", "    def m(self, p: %s) =>" % pt, "        print(%s)" % use, "    def n(self, q: %s) => self.m(q)" % at, "def h := Hm()"] + bind + ["h.n(%s)" % arg]),
+                ]
+                if pt in ("Int", "Float", "Str"):
+                    lhs = {"Int": "5", "Float": "5.5", "Str": '"s"'}[pt]
+                    forms.append(("builtin-operator", bind + ["def r := %s + %s" % (lhs, arg), "print(r)"]))
+                    forms.append(("builtin-compare", bind + ["def r := %s < %s" % (lhs, arg), "print(r)"]))
+                for form, lines in forms:
+                    n += 1
+                    yield {"id": "c04-ar%d" % n, "family": "c04.E3.argument", "src": "\n".join(pre + lines) + "\n", "desc": "%s: %s %s for a %s parameter" % (form, hold, at, pt), "base": "ar",
+                           "tags": ["mut:argument-type", "form:" + form, "arg:" + at, "param:" + pt, "hold:" + hold]}
+
+
 def cases(tier, seed):
     yield from element_programs()
+    yield from argument_programs()
     yield from gen_c04.cases(tier)
 
 
